@@ -198,6 +198,8 @@ def isBlocked (q : Quirks) (fuel : Nat) (h : Hier) (t : Nat) (eBlock : List Meth
   else match h[declTy]? with
     | none => none
     | some D =>
+      -- each schema has its own xs:anyType object: two of them are the same type (fix 79e0e65, C07-F6)
+      if D.anyType && (match h[t]? with | some T => T.anyType | none => false) then some false else
       let blk := eBlock ++ D.block
       blk.foldr (fun m acc =>
         match isDerived q fuel h t declTy (some m), acc with
